@@ -5,14 +5,16 @@
 (*                                                                         *)
 (* A token is a record of features of one header field, extracted by the  *)
 (* harness without judgement (harness/absn.py tok()):                      *)
-(*   n, v    raw name / value as text        ty  "b" bytes / "s" str       *)
+(*   n, v    name / value as text            ty  "b" bytes / "s" str       *)
 (*   k       "t" tuple, "H" HeaderTuple, "N" NeverIndexedHeaderTuple       *)
 (*   nl      name lowercased + stripped      vs  value stripped            *)
-(*   vslo    value stripped + lowercased     nu  name has A-Z              *)
-(*   ne      name empty   nw / vw  name / value has surrounding whitespace *)
-(*   np/nlp  raw / normalised name starts with ":"                         *)
-(*   vsn     length of stripped value   v1  raw value starts with "1"      *)
+(*   vlo     value lowercased                vslo value stripped+lowercased*)
+(*   nu      name has A-Z      ne  name empty                              *)
+(*   nw      name has surrounding whitespace                               *)
 (*   vlead / vtrail  first / last byte of the value is whitespace          *)
+(*   np/nlp  name / normalised name starts with ":"                        *)
+(*   vsn     length of stripped value                                      *)
+(*   v1/vs1  value / stripped value starts with "1"                        *)
 (*   ci, civ value parses as an integer (Python int(v, 10)), its value     *)
 (*   u8      name and value are valid UTF-8                                *)
 (* The operators below are the library's rules, in the order it applies    *)
@@ -27,128 +29,110 @@ SecureNames  == {"authorization", "proxy-authorization"}
 
 Idx(h) == 1..Len(h)
 
-\* ---------------------------------------------------------------- a header field as it travels / is delivered
-Wire(n, v, ni, ty) == [n |-> n, v |-> v, ni |-> ni, ty |-> ty]
+\* a header field as an observer sees it on the wire / in an event
+Wire(t, ty) == [n |-> t.n, v |-> t.v, ni |-> t.k = "N", ty |-> ty]
+WireList(h, ty) == [i \in Idx(h) |-> Wire(h[i], ty)]
 
-\* ---------------------------------------------------------------- features used before any normalisation
-\* utilities.is_informational_response: walks the leading pseudo-headers, first :status decides
+\* ---------------------------------------------------------------- features read before any normalisation
+\* utilities.is_informational_response: walks the leading pseudo-headers, the first :status decides
 IsInformational(h) ==
   \E i \in Idx(h) : /\ h[i].n = ":status" /\ h[i].v1
                     /\ \A j \in 1..(i-1) : h[j].np /\ h[j].n # ":status"
-\* utilities.extract_method_header / authority_from_headers: first exact match on the raw name
+\* utilities.extract_method_header / authority_from_headers: first exact match on the name as given
 FirstIdx(h, name) == CHOOSE i \in Idx(h) : h[i].n = name /\ \A j \in 1..(i-1) : h[j].n # name
-HasRaw(h, name) == \E i \in Idx(h) : h[i].n = name
-MethodOf(h)    == IF HasRaw(h, ":method") THEN h[FirstIdx(h, ":method")].v ELSE "None"
-AuthorityOf(h) == IF HasRaw(h, ":authority") THEN h[FirstIdx(h, ":authority")].v ELSE "None"
-
-\* stream._initialize_content_length: first raw "content-length" (bytes on the wire)
-HasCL(h)  == HasRaw(h, "content-length")
+HasName(h, name) == \E i \in Idx(h) : h[i].n = name
+MethodOf(h)    == IF HasName(h, ":method") THEN h[FirstIdx(h, ":method")].v ELSE "None"
+AuthorityOf(h) == IF HasName(h, ":authority") THEN h[FirstIdx(h, ":authority")].v ELSE "None"
+\* stream._initialize_content_length: the first "content-length" field
+HasCL(h)  == HasName(h, "content-length")
 CLTok(h)  == h[FirstIdx(h, "content-length")]
 
-\* ---------------------------------------------------------------- outbound: normalise, then validate
-\* view of a token as the validators see it: [n, v, ty, ni]
-RawView(t)  == [n |-> t.n,  v |-> t.v,  vlo |-> t.vlo,  ty |-> t.ty, ni |-> t.k = "N", pseudo |-> t.np,  vempty |-> t.v = ""]
-NormView(t) == [n |-> t.nl, v |-> t.vs, vlo |-> t.vslo, ty |-> t.ty,
-                ni |-> (t.k = "N") \/ (t.nl \in SecureNames) \/ (t.nl = "cookie" /\ t.vsn < 20),
-                pseudo |-> t.nlp, vempty |-> t.vs = ""]
+\* ---------------------------------------------------------------- outbound normalisation
+\* _lowercase_header_names, _strip_surrounding_whitespace, _secure_headers on one field
+NormTok(t) ==
+  [t EXCEPT !.n = t.nl, !.v = t.vs, !.vlo = t.vslo, !.nu = FALSE, !.ne = (t.nl = ""), !.nw = FALSE,
+            !.vlead = FALSE, !.vtrail = FALSE, !.np = t.nlp, !.v1 = t.vs1,
+            !.k = IF (t.k = "N") \/ (t.nl \in SecureNames) \/ (t.nl = "cookie" /\ t.vsn < 20) THEN "N" ELSE t.k]
+NormalizeOut(h) ==      \* ... and _strip_connection_headers
+  SelectSeq([i \in Idx(h) |-> NormTok(h[i])], LAMBDA t : t.n \notin ConnSpecific)
 
-NormalizeOut(h) ==      \* lower + strip, drop connection-specific fields, mark secure fields never-indexed
-  LET views == [i \in Idx(h) |-> NormView(h[i])]
-      Keep(x) == x.n \notin ConnSpecific
-  IN SelectSeq(views, Keep)
-OutViews(h, normalize) == IF normalize THEN NormalizeOut(h) ELSE [i \in Idx(h) |-> RawView(h[i])]
+\* ---------------------------------------------------------------- the validation rules (shared by both directions)
+\* kind in {"req", "resp", "trl", "push"}: what the stream state machine says this block is
+SameField(a, b) == a.n = b.n /\ a.ty = b.ty          \* b':method' and ':method' are different dictionary keys
+BadTE(t)   == t.n = "te" /\ t.vlo # "trailers"
+BadConn(t) == t.n \in ConnSpecific
+DupPseudo(h, i) == h[i].np /\ \E j \in 1..(i-1) : h[j].np /\ SameField(h[i], h[j])
+OutOfSeq(h, i)  == h[i].np /\ \E j \in 1..(i-1) : ~h[j].np
+Custom(t)       == t.np /\ t.n \notin KnownPseudo
+EmptyPath(t, kind) == kind \in {"req", "push"} /\ t.n = ":path" /\ t.v = ""
+FieldBad(h, i, kind) == BadTE(h[i]) \/ BadConn(h[i]) \/ DupPseudo(h, i) \/ OutOfSeq(h, i) \/ Custom(h[i]) \/ EmptyPath(h[i], kind)
 
-\* the rule set shared by outbound and inbound validation, on views; kind in {"req","resp","trl","push"}
-SameField(a, b) == a.n = b.n /\ a.ty = b.ty          \* b':method' and ':method' are different keys
-BadTE(x)   == x.n = "te" /\ x.vlo # "trailers"
-BadConn(x) == x.n \in ConnSpecific
-DupPseudo(w, i) == w[i].pseudo /\ \E j \in 1..(i-1) : w[j].pseudo /\ SameField(w[i], w[j])
-OutOfSeq(w, i)  == w[i].pseudo /\ \E j \in 1..(i-1) : ~w[j].pseudo
-Custom(x)       == x.pseudo /\ x.n \notin KnownPseudo
-EmptyPath(x, kind) == kind \in {"req", "push"} /\ x.n = ":path" /\ x.vempty
-
-PseudoNames(w) == {w[i].n : i \in {j \in Idx(w) : w[j].pseudo}}
-ViewMethod(w) ==     \* last :method wins (the validator overwrites its variable)
-  LET S == {i \in Idx(w) : w[i].pseudo /\ w[i].n = ":method"}
-  IN IF S = {} THEN "None" ELSE w[CHOOSE i \in S : \A j \in S : j <= i].v
-AcceptablePseudo(w, kind) ==
-  LET P == PseudoNames(w) IN
+PseudoNames(h) == {h[i].n : i \in {j \in Idx(h) : h[j].np}}
+LastIdx(h, name) == LET S == {i \in Idx(h) : h[i].n = name} IN CHOOSE i \in S : \A j \in S : j <= i
+BlockMethod(h) == IF HasName(h, ":method") THEN h[LastIdx(h, ":method")].v ELSE "None"   \* the validator keeps the last one
+AcceptablePseudo(h, kind) ==
+  LET P == PseudoNames(h) IN
   CASE kind = "trl"  -> P = {}
     [] kind = "resp" -> ":status" \in P /\ P \cap RequestOnly = {}
     [] OTHER         -> /\ {":path", ":method", ":scheme"} \subseteq P
                         /\ ":status" \notin P
-                        /\ (ViewMethod(w) # "CONNECT" => ":protocol" \notin P)
-LastVal(w, name) ==
-  LET S == {i \in Idx(w) : w[i].n = name} IN
-  IF S = {} THEN <<>> ELSE LET x == w[CHOOSE i \in S : \A j \in S : j <= i] IN <<[v |-> x.v, ty |-> x.ty]>>
-HostAuthorityOK(w, kind) ==
+                        /\ (BlockMethod(h) # "CONNECT" => ":protocol" \notin P)
+LastVal(h, name) == IF HasName(h, name) THEN LET t == h[LastIdx(h, name)] IN <<[v |-> t.v, ty |-> t.ty]>> ELSE <<>>
+HostAuthorityOK(h, kind) ==         \* only the LAST :authority and the LAST host are compared
   kind \in {"resp", "trl"} \/
-  LET a == LastVal(w, ":authority")
-      host == LastVal(w, "host")
+  LET a == LastVal(h, ":authority")
+      host == LastVal(h, "host")
   IN /\ (a # <<>> \/ host # <<>>)
      /\ (a # <<>> /\ host # <<>>) => a = host
+BlockOK(h, kind) == AcceptablePseudo(h, kind) /\ HostAuthorityOK(h, kind)
 
-\* validate_outbound_headers: te, connection, pseudo rules, host/authority, path
-OutFieldBad(w, i, kind) == BadTE(w[i]) \/ BadConn(w[i]) \/ DupPseudo(w, i) \/ OutOfSeq(w, i) \/ Custom(w[i]) \/ EmptyPath(w[i], kind)
-ValidOutViews(w, kind) ==
-  /\ \A i \in Idx(w) : ~OutFieldBad(w, i, kind)
-  /\ AcceptablePseudo(w, kind)
-  /\ HostAuthorityOK(w, kind)
-
-\* result of the outbound pipeline: [ok, h (wire fields), clean]
-\* clean = no header was handed to the HPACK encoder before the failure (the generators are lazy)
+\* ---------------------------------------------------------------- outbound pipeline
+\* result: ok; h = the tokens that go on the wire; clean = no field reached the HPACK encoder before the failure
+\* (normalisation and validation are lazy generators consumed inside the encoder)
 OutPipeline(h, kind, normalize, validate) ==
-  LET w == OutViews(h, normalize)
-      ok == ~validate \/ ValidOutViews(w, kind)
-      firstBad == IF \E i \in Idx(w) : OutFieldBad(w, i, kind)
-                  THEN CHOOSE i \in Idx(w) : OutFieldBad(w, i, kind) /\ \A j \in 1..(i-1) : ~OutFieldBad(w, j, kind)
-                  ELSE Len(w) + 1
+  LET w == IF normalize THEN NormalizeOut(h) ELSE h
+      bad == {i \in Idx(w) : FieldBad(w, i, kind)}
+      ok == ~validate \/ (bad = {} /\ BlockOK(w, kind))
   IN [ok |-> ok,
-      h |-> [i \in Idx(w) |-> Wire(w[i].n, w[i].v, w[i].ni, "b")],
-      clean |-> ok \/ firstBad = 1]
+      h |-> [i \in Idx(w) |-> [w[i] EXCEPT !.ty = "b"]],
+      clean |-> ok \/ (bad # {} /\ 1 \in bad) \/ w = <<>>]
 
-\* ---------------------------------------------------------------- inbound: normalise (cookie join), validate, decode
-InView(t) == [n |-> t.n, v |-> t.v, vlo |-> t.vlo, ty |-> "b", ni |-> t.k = "N", pseudo |-> t.np, vempty |-> t.v = "",
-              nu |-> t.nu, ne |-> t.ne, nw |-> t.nw, vlead |-> t.vlead, vtrail |-> t.vtrail, u8 |-> t.u8]
+\* ---------------------------------------------------------------- inbound pipeline
 RECURSIVE JoinCookies(_)
 JoinCookies(vals) == IF Len(vals) = 1 THEN vals[1] ELSE vals[1] \o "; " \o JoinCookies(Tail(vals))
-IsCookie(x) == x.n = "cookie"
-NotCookie(x) == x.n # "cookie"
 \* utilities._combine_cookie_fields: all cookie fields leave their place; one joined never-indexed field is appended
-CombineCookies(w) ==
-  LET cs == SelectSeq(w, IsCookie)
-      rest == SelectSeq(w, NotCookie)
-  IN IF cs = <<>> THEN w
+CombineCookies(h) ==
+  LET cs == SelectSeq(h, LAMBDA t : t.n = "cookie")
+      rest == SelectSeq(h, LAMBDA t : t.n # "cookie")
+  IN IF cs = <<>> THEN h
      ELSE LET joined == JoinCookies([i \in Idx(cs) |-> cs[i].v])
               a == cs[1]
               b == cs[Len(cs)]
-          IN rest \o <<[n |-> "cookie", v |-> joined, vlo |-> joined, ty |-> "b", ni |-> TRUE, pseudo |-> FALSE,
-                        vempty |-> joined = "", nu |-> FALSE, ne |-> FALSE, nw |-> FALSE,
-                        vlead |-> (a.v # "" /\ a.vlead),                            \* "" + "; " starts with ";": not whitespace
-                        vtrail |-> (IF b.v # "" THEN b.vtrail ELSE Len(cs) > 1),   \* "...; " ends with a space
-                        u8 |-> \A i \in Idx(cs) : cs[i].u8]>>
+          IN rest \o <<[a EXCEPT !.v = joined, !.vs = joined, !.vlo = joined, !.vslo = joined, !.k = "N",
+                                 !.vlead = (a.v # "" /\ a.vlead),            \* "" + "; " starts with ";": not whitespace
+                                 !.vtrail = (IF b.v # "" THEN b.vtrail ELSE Len(cs) > 1),  \* "...; " ends with a space
+                                 !.ci = FALSE, !.civ = 0,
+                                 !.u8 = \A i \in Idx(cs) : cs[i].u8]>>
 
-\* outcome of the inbound pipeline
 InOK(h)    == [c |-> "ok", h |-> h]
 InErr(cls) == [c |-> cls, h |-> <<>>]
 
 \* per-field failure of validate_headers + header_encoding, in the library's order; "none" if the field passes
-InFieldFailure(w, i, kind, validate, decode) ==
-  LET x == w[i] IN
-  IF validate /\ x.nu THEN "ProtocolError"
-  ELSE IF validate /\ x.ne THEN "foreign:IndexError"                \* header[0][0] on an empty name
-  ELSE IF validate /\ (x.nw \/ x.vlead \/ x.vtrail) THEN "ProtocolError"
-  ELSE IF validate /\ (BadTE(x) \/ BadConn(x) \/ DupPseudo(w, i) \/ OutOfSeq(w, i) \/ Custom(x) \/ EmptyPath(x, kind))
-       THEN "ProtocolError"
-  ELSE IF decode /\ ~x.u8 THEN "foreign:UnicodeDecodeError"
+InFieldFailure(h, i, kind, validate, decode) ==
+  LET t == h[i] IN
+  IF validate /\ t.nu THEN "ProtocolError"
+  ELSE IF validate /\ t.ne THEN "foreign:IndexError"                \* header[0][0] on an empty name
+  ELSE IF validate /\ (t.nw \/ t.vlead \/ t.vtrail) THEN "ProtocolError"
+  ELSE IF validate /\ FieldBad(h, i, kind) THEN "ProtocolError"
+  ELSE IF decode /\ ~t.u8 THEN "foreign:UnicodeDecodeError"
   ELSE "none"
 
-InPipeline(h, kind, normalize, validate, decode) ==
-  LET w0 == [i \in Idx(h) |-> InView(h[i])]
-      w == IF normalize THEN CombineCookies(w0) ELSE w0
-      F(i) == InFieldFailure(w, i, kind, validate, decode)
-      bad == {i \in Idx(w) : F(i) # "none"}
+\* result: c = "ok" and h = delivered wire fields, or c = the exception class
+InPipeline(h0, kind, normalize, validate, decode) ==
+  LET h == IF normalize THEN CombineCookies(h0) ELSE h0
+      F(i) == InFieldFailure(h, i, kind, validate, decode)
+      bad == {i \in Idx(h) : F(i) # "none"}
   IN IF bad # {} THEN InErr(F(CHOOSE i \in bad : \A j \in bad : i <= j))
-     ELSE IF validate /\ ~(AcceptablePseudo(w, kind) /\ HostAuthorityOK(w, kind)) THEN InErr("ProtocolError")
-     ELSE InOK([i \in Idx(w) |-> Wire(w[i].n, w[i].v, w[i].ni, IF decode THEN "s" ELSE "b")])
+     ELSE IF validate /\ ~BlockOK(h, kind) THEN InErr("ProtocolError")
+     ELSE InOK(WireList(h, IF decode THEN "s" ELSE "b"))
 =============================================================================
